@@ -3,6 +3,7 @@ package protobuild
 import (
 	"context"
 	"fmt"
+	"path"
 	"strings"
 
 	"github.com/pentops/j5/internal/protosrc"
@@ -106,7 +107,17 @@ func (rr *dependencyResolver) listPackageFiles(_ context.Context, pkgName string
 
 	// with the trailing slash: the files in this directory, not those of a
 	// package whose directory name merely starts the same (foo/v1, foo/v10)
-	files := rr.deps.ListDependencyFiles(root + "/")
+	listed := rr.deps.ListDependencyFiles(root + "/")
+
+	// and, as for local packages, not the files of the packages in the
+	// directories below it (foo/v1/service)
+	files := make([]string, 0, len(listed))
+	for _, file := range listed {
+		if path.Dir(file) != root {
+			continue
+		}
+		files = append(files, file)
+	}
 	if len(files) == 0 {
 		return nil, fmt.Errorf("no files for package at %s", root)
 	}
